@@ -144,7 +144,8 @@ impl Prop for C07 {
             c.name = "c".into();
         }
         let nrows = if n > 100 { g.usize_in(1, 2) } else { g.usize_in(1, 6) };
-        let rows = (0..nrows).map(|i| gen_row(g, &cols, true, i + 1 == nrows)).collect();
+        let mut rows: Vec<RowProg> = (0..nrows).map(|i| gen_row(g, &cols, true, i + 1 == nrows)).collect();
+        settle_short_rows(&mut rows, cols.len());
         Case::Rows { cols, rows }
     }
     fn exec(&self, case: &Case) -> Exec {
@@ -191,6 +192,10 @@ impl Prop for C07 {
                         Action::Result(Program { steps: vec![Step::Set { cols: cols.clone(), rows: rows.clone(), end: SetEnd::Finish }] }),
                     ],
                 );
+                if rows.iter().any(|r| r.form == RowForm::ShortEndRow) {
+                    ex.nontrivial = true;
+                    ex.class("short-row-ended-with-end_row");
+                }
                 let offers: usize = rows.iter().map(|r| r.offers.len()).sum();
                 if offers > 0 {
                     ex.nontrivial = true;
@@ -274,7 +279,7 @@ fn second_opinion(d: &Decoded, r: &Response, cols: &[ColSpec], rows: &[RowProg])
     let msgs = &d.msgs[r.first_msg..r.first_msg + r.n_msgs];
     let n = cols.len();
     // (rows the shim gave up before writing anything are not part of the response)
-    let rows: Vec<&RowProg> = rows.iter().filter(|r| !r.cells.is_empty()).collect();
+    let rows: Vec<&RowProg> = rows.iter().filter(|r| !r.cells.is_empty() && r.form != RowForm::ShortEndRow).collect();
     if msgs.len() < 1 + n + 1 + rows.len() + 1 {
         return Err("response shorter than header + rows".into());
     }
